@@ -22,8 +22,15 @@ class _Return(Exception):
         self.v = v
 
 
+class Raised(Exception):
+    """an exception raised by the interpreted fragment itself (`raise X(...)`)"""
+    def __init__(self, name):
+        self.name = name
+
+
 class ListWalk:
-    def __init__(self, leaf_classes, env=None, funcs=None, budget=20000):
+    def __init__(self, leaf_classes, env=None, funcs=None, budget=20000, assert_raises=False):
+        self.assert_raises = assert_raises
         self.leaf_classes = set(leaf_classes)     # class names for which isinstance(token, C) holds
         self.env = dict(env or {})
         self.funcs = dict(funcs or {})            # name -> python callable (hooks) or ast.FunctionDef (interpreted)
@@ -82,13 +89,19 @@ class ListWalk:
         if isinstance(e, ast.BinOp) and isinstance(e.op, (ast.Add, ast.Sub, ast.Mult)):
             a, b = self.ev(e.left), self.ev(e.right)
             return a + b if isinstance(e.op, ast.Add) else (a - b if isinstance(e.op, ast.Sub) else a * b)
-        if isinstance(e, ast.Compare) and len(e.ops) == 1:
-            a, b, op = self.ev(e.left), self.ev(e.comparators[0]), e.ops[0]
-            table = {ast.Eq: lambda: a == b, ast.NotEq: lambda: a != b, ast.Lt: lambda: a < b, ast.LtE: lambda: a <= b,
-                     ast.Gt: lambda: a > b, ast.GtE: lambda: a >= b, ast.Is: lambda: a is b, ast.IsNot: lambda: a is not b,
-                     ast.In: lambda: a in b, ast.NotIn: lambda: a not in b}
-            if type(op) in table:
-                return table[type(op)]()
+        if isinstance(e, ast.Compare):
+            a = self.ev(e.left)
+            for op, rt in zip(e.ops, e.comparators):
+                b = self.ev(rt)
+                table = {ast.Eq: lambda: a == b, ast.NotEq: lambda: a != b, ast.Lt: lambda: a < b, ast.LtE: lambda: a <= b,
+                         ast.Gt: lambda: a > b, ast.GtE: lambda: a >= b, ast.Is: lambda: a is b, ast.IsNot: lambda: a is not b,
+                         ast.In: lambda: a in b, ast.NotIn: lambda: a not in b}
+                if type(op) not in table:
+                    raise AnalysisError(f"list walker: comparison outside the vocabulary: {norm(e)[:80]}")
+                if not table[type(op)]():
+                    return False
+                a = b
+            return True
         if isinstance(e, ast.IfExp):
             return self.ev(e.body) if self.ev(e.test) else self.ev(e.orelse)
         if isinstance(e, (ast.ListComp, ast.GeneratorExp, ast.SetComp)) and len(e.generators) == 1:
@@ -240,6 +253,32 @@ class ListWalk:
                 pass
             elif isinstance(st, ast.Assert):
                 if not self.ev(st.test):
+                    if self.assert_raises:
+                        raise AssertionError()
                     raise AnalysisError(f"list walker: assertion `{norm(st.test)}` fails on a well-formed shape")
+            elif isinstance(st, ast.Raise):
+                exc = st.exc.func if isinstance(st.exc, ast.Call) else st.exc
+                raise Raised(norm(exc) if exc is not None else 'reraise')
+            elif isinstance(st, ast.Try):
+                try:
+                    self.block(st.body)
+                except (_Break, _Continue, _Return, AnalysisError):
+                    raise
+                except Exception as e:          # noqa: BLE001 -- Python's own IndexError / TypeError / ... of the concrete evaluation
+                    ename = e.name if isinstance(e, Raised) else e.__class__.__name__
+                    for h in st.handlers:
+                        names = [] if h.type is None else ([norm(x) for x in h.type.elts] if isinstance(h.type, ast.Tuple) else [norm(h.type)])
+                        if h.type is None or ename in names or 'Exception' in names or \
+                                (ename in ('IndexError', 'KeyError') and 'LookupError' in names):
+                            if h.name:
+                                self.env[h.name] = ename
+                            self.block(h.body)
+                            break
+                    else:
+                        raise
+                else:
+                    self.block(st.orelse)
+                finally:
+                    self.block(st.finalbody)
             else:
                 raise AnalysisError(f"list walker: statement outside the vocabulary: {norm(st)[:80]}")
